@@ -27,7 +27,7 @@ ASSUMPTIONS = [
     '(difference is rounding only, covered by the 1e-8 tolerance)',
     'the proofs are about exact arithmetic over a linear ordered field with sqrt; rounding is '
     'covered only by the differential run',
-    'optimality (C12_optimal) is NOT proved; it is tested numerically against the transpose '
+    'global optimality of an exact fixed point over reversible matrices with the same support is proved (Props.C12.optimal, optimal_vs_transpose, optimal_output); that the loop reaches a fixed point within the tolerance is not proved and is examined numerically',
     'estimate, random reversible competitors and perturbations with tolerance 1e-7*(1+|L|)',
 ]
 TRUSTED_EXTRA = ['translator harness/props/c12.py:translate (AST of the two warnings.warn call sites)']
